@@ -685,21 +685,22 @@ class InterpolatableFunction(ABC):
         # what to append to lower end
         if newMin < self._rangeMin and pointsMin > 0:
 
-            ## Point spacing to use at new lower end
-            spacing = np.abs(self._rangeMin - newMin) / pointsMin
-            # arange stops one spacing before the max value, which is what we want
-            appendPointsMin = np.arange(newMin, self._rangeMin, spacing)
+            # pointsMin equally spaced points starting at newMin and stopping one spacing
+            # before the current lower end. (np.arange with a float step decides its
+            # length by a rounded quotient and could repeat the current end point.)
+            appendPointsMin = np.linspace(
+                newMin, self._rangeMin, int(pointsMin), endpoint=False
+            )
         else:
             appendPointsMin = np.array([])
 
         # what to append to upper end
         if newMax > self._rangeMax and pointsMax > 0:
 
-            ## Point spacing to use at new upper end
-            spacing = np.abs(newMax - self._rangeMax) / pointsMax
-            appendPointsMax = np.arange(
-                self._rangeMax + spacing, newMax + spacing, spacing
-            )
+            # pointsMax equally spaced points above the current upper end, ending at newMax
+            appendPointsMax = np.linspace(
+                self._rangeMax, newMax, int(pointsMax) + 1
+            )[1:]
         else:
             appendPointsMax = np.array([])
 
